@@ -46,7 +46,7 @@ Section Upload2.
     fs_get (h_dir h, h_file h) (fs x') = fs_get (h_dir h, h_file h) (fs x) /\
     fs_get (dest, h_file h) (fs x') = fs_get (dest, h_file h) (fs x).
   Proof.
-    intros Hnot. unfold do_move, transfer. destruct (negb (forallb plain (h_listed h))); [intros E; inversion E; subst; now split|].
+    intros Hnot. unfold do_move, transfer. destruct (negb (listed_ok h)); [intros E; inversion E; subst; now split|].
     destruct (each rename_file (h_dir h) dest (h_listed h) x) as [x1 ok1] eqn:EA.
     assert (F : forall d, fs_get (d, h_file h) (fs x1) = fs_get (d, h_file h) (fs x)).
     { intros d. apply (each_rename_frame _ _ _ _ _ _ _ EA). intros n Hn.
@@ -60,7 +60,7 @@ Section Upload2.
   Theorem C20_move_success h dest x x' : do_move fault h dest x = (x', true) ->
     exists x1, fs_get (dest, h_file h) (fs x') = fs_get (h_dir h, h_file h) (fs x1) /\ fs_get (h_dir h, h_file h) (fs x1) <> None.
   Proof.
-    unfold do_move, transfer. destruct (negb (forallb plain (h_listed h))); [discriminate|].
+    unfold do_move, transfer. destruct (negb (listed_ok h)); [discriminate|].
     destruct (each rename_file (h_dir h) dest (h_listed h) x) as [x1 ok1]; destruct ok1; [|discriminate].
     unfold U20.rename_file, step. cbn [fs log tick]. intros C. exists x1.
     destruct (fs_get (h_dir h, h_file h) (fs x1)) as [content|]; [|discriminate].
@@ -117,7 +117,7 @@ Section Upload2.
          forall n, In n (h_listed h) -> In (EvRemove (h_dir h, n)) pre) /\
       (ok = false -> fs_get (h_dir h, h_file h) (fs x') = fs_get (h_dir h, h_file h) (fs x)).
   Proof.
-    intros Hnot. unfold do_remove. destruct (negb (forallb plain (h_listed h))).
+    intros Hnot. unfold do_remove. destruct (negb (listed_ok h)).
     { intros E. inversion E; subst. exists []. rewrite app_nil_r. repeat split; auto. intros [|? ?] ? E2; discriminate. }
     destruct (each rm (h_dir h) [] (h_listed h) x) as [x1 ok1] eqn:EA.
     destruct (each_remove _ _ _ _ _ EA) as (e1&L1&A1&C1&F1).
